@@ -206,15 +206,26 @@ def gen_libraries(rng, disk, keep):
     return libs
 
 
-def gen_session(rng, name, steps_lo=3, steps_hi=25):
+CFG = "vhdl_ls.toml"
+
+
+def other_events(rng, disk, p):
+    """didChangeWatchedFiles events (Created 1 / Changed 2 / Deleted 3) for files other than the configuration
+    file; the file system is not touched: the server ignores them."""
+    return [[rng.choice(sorted(disk)), rng.choice([1, 2, 3])] for _ in range(2) if rng.random() < p]
+
+
+def gen_session(rng, name, steps_lo=3, steps_hi=25, full_p=0.15):
     disk = {"ent.vhd": variant(rng, "ent"), "pkg.vhd": variant(rng, "pkg"), "top.vhd": variant(rng, "top"),
             "l2/pkg2.vhd": variant(rng, "pkg2"), "np/x.vhd": variant(rng, "np")}
     if rng.random() < 0.5:
         disk["body.vhd"] = variant(rng, "body")
     family = dict(FAMILY_OF)
     cfg = {"libraries": gen_libraries(rng, disk, set()), "lint": gen_lint(rng)}
+    if rng.random() < 0.12:
+        cfg["missing"] = True          # the server starts without vhdl_ls.toml; the file is created later
     sess = {"name": name, "nolint": rng.random() < 0.05, "rel": rng.random() < 0.6,
-            "libs": "full" if rng.random() < 0.15 else "std", "files": dict(disk), "config": json.loads(json.dumps(cfg)), "steps": []}
+            "libs": "full" if rng.random() < full_p else "std", "files": dict(disk), "config": json.loads(json.dumps(cfg)), "steps": []}
     n = rng.randint(steps_lo, steps_hi)
     kinds = rng.choices(["open", "open_np", "change", "config", "watched", "create", "rename", "delete"],
                         weights=[16, 4, 34, 24, 3, 7, 6, 6], k=n)
@@ -274,7 +285,7 @@ def gen_session(rng, name, steps_lo=3, steps_hi=25):
             new.pop("missing", None)
             if r < 0.04 and not opened:
                 new["broken"] = True
-            elif r < 0.07 and not opened:
+            elif r < 0.12 and not opened and not cfg.get("missing"):
                 new["missing"] = True
             elif r < 0.65 and not (cfg.get("broken") or cfg.get("missing")):
                 new["lint"] = gen_lint(rng)
@@ -282,12 +293,23 @@ def gen_session(rng, name, steps_lo=3, steps_hi=25):
                 new["libraries"] = gen_libraries(rng, disk, members_open)
                 if rng.random() < 0.5:
                     new["lint"] = gen_lint(rng)
+            # the FileChangeType(s) the client reports for vhdl_ls.toml: Created when it did not exist, Deleted when it
+            # is removed, otherwise Changed, or Created alone (rename over the old file), or Deleted+Created in one
+            # notification (an editor's write-temp-and-rename)
+            if cfg.get("missing") and not new.get("missing"):
+                types = [1]
+            elif new.get("missing"):
+                types = [3]
+            else:
+                types = rng.choice([[2], [2], [2], [1], [3, 1], [3, 1]])
             cfg = new
-            extra = [rng.choice(sorted(disk))] if rng.random() < 0.2 else []
-            sess["steps"].append({"op": "config", "config": json.loads(json.dumps(cfg)), "extra": extra})
+            events = [[CFG, t] for t in types]
+            for ev in other_events(rng, disk, 0.15):          # mixed batch
+                events.insert(rng.randint(0, len(events)), ev)
+            sess["steps"].append({"op": "config", "config": json.loads(json.dumps(cfg)), "events": events})
             continue
         if kind == "watched":
-            sess["steps"].append({"op": "watched", "paths": [rng.choice(sorted(disk))]})
+            sess["steps"].append({"op": "watched", "events": other_events(rng, disk, 0.5) or [[rng.choice(sorted(disk)), 2]]})
             continue
         if kind == "create":
             counter += 1
@@ -299,7 +321,7 @@ def gen_session(rng, name, steps_lo=3, steps_hi=25):
             continue
         cands = [f for f in sorted(disk) if f not in opened and not f.startswith("np/")]
         if not cands:
-            sess["steps"].append({"op": "watched", "paths": [rng.choice(sorted(disk))]})
+            sess["steps"].append({"op": "watched", "events": [[rng.choice(sorted(disk)), rng.choice([1, 2, 3])]]})
             continue
         f = rng.choice(cands)
         if kind == "rename":
@@ -453,13 +475,16 @@ def run_session(sess, binpath, wsdir, codes, stop_at=None):
             elif op == "config":
                 cfg = step["config"]
                 write_config(root, shadow, cfg)
-                changes = [{"uri": lsp.uri(os.path.join(root, "vhdl_ls.toml")), "type": 2}]
-                changes += [{"uri": lsp.uri(os.path.join(root, e)), "type": 2} for e in step.get("extra", [])]
-                live.notify("workspace/didChangeWatchedFiles", {"changes": changes})
+                events = step.get("events")
+                if events is None:        # older replay files
+                    events = [[CFG, 2]] + [[e, 2] for e in step.get("extra", [])]
+                live.notify("workspace/didChangeWatchedFiles",
+                            {"changes": [{"uri": lsp.uri(os.path.join(root, e)), "type": t} for e, t in events]})
                 reload = True
             elif op == "watched":
+                events = step.get("events") or [[e, 2] for e in step.get("paths", [])]
                 live.notify("workspace/didChangeWatchedFiles",
-                            {"changes": [{"uri": lsp.uri(os.path.join(root, e)), "type": 2} for e in step["paths"]]})
+                            {"changes": [{"uri": lsp.uri(os.path.join(root, e)), "type": t} for e, t in events]})
                 publishes = False
             elif op == "create":
                 write_file(os.path.join(root, step["path"]), step["text"])
@@ -784,7 +809,8 @@ def run_check(res, tier, replay, d):
         rng = random.Random(seed() * 7919 + (1 if tier == "thorough" else 0))
         for i in range(n):
             lo_hi = ((3, 8), (6, 14), (12, hi))[i % 3]
-            sessions.append(gen_session(random.Random(rng.getrandbits(64)), "gen-%d-%d" % (seed(), i), *lo_hi))
+            sessions.append(gen_session(random.Random(rng.getrandbits(64)), "gen-%d-%d" % (seed(), i), *lo_hi,
+                                        full_p=0.15 if tier == "thorough" else 0.04))
 
     def work(ix):
         sess = sessions[ix]
@@ -834,6 +860,8 @@ def run_check(res, tier, replay, d):
     totals = {"points": 0, "notifications": 0, "view_changes": 0, "noop_notifications": 0, "predicted": 0}
     ops = {}
     lint_values = {}
+    watched_types = {}
+    started_without_config = sum(1 for ix in runs if sessions[ix]["config"].get("missing"))
     outside = []
     nviol = 0
     for ix in sorted(runs):
@@ -844,6 +872,10 @@ def run_check(res, tier, replay, d):
             totals[k] += stats[k]
         for st in sess["steps"]:
             ops[st["op"]] = ops.get(st["op"], 0) + 1
+            if st["op"] in ("config", "watched"):
+                for e, t in st.get("events", []):
+                    key = ("config_file" if e == CFG else "other_file") + "_type%d" % t
+                    watched_types[key] = watched_types.get(key, 0) + 1
             if st["op"] == "config":
                 for v in (st["config"].get("lint") or {}).values():
                     lint_values[str(v)] = lint_values.get(str(v), 0) + 1
@@ -904,6 +936,8 @@ def run_check(res, tier, replay, d):
     res.coverage["client_view_changes"] = totals["view_changes"]
     res.coverage["step_kinds"] = ops
     res.coverage["lint_values_written"] = lint_values
+    res.coverage["watched_file_events"] = watched_types
+    res.coverage["sessions_started_without_config"] = started_without_config
     res.coverage["outside_claim"] = outside
     res.coverage["traces_validated_against_impl"] = len(predicted)
     res.coverage["exhaustive"] = False
@@ -919,7 +953,9 @@ def run_check(res, tier, replay, d):
         "workspace of 5-6 small VHDL files (syntax errors, unresolved names, unused / sensitivity-list lints, duplicate "
         "declarations with cross-file related information, second library) with random [lint] tables "
         "(error|warning|info|hint|false|true), library mappings (glob / explicit / library removed / broken or missing "
-        "vhdl_ls.toml), 5% --no-lint, 40% clients without relatedInformation.  A session is non-trivial when the client "
+        "vhdl_ls.toml, 12% of the servers start without vhdl_ls.toml), every FileChangeType for the configuration file "
+        "(Created after a start without it, Deleted, Changed, Created alone, Deleted+Created in one notification), "
+        "mixed batches with events of all three types for other files, 5% --no-lint, 40% clients without relatedInformation.  A session is non-trivial when the client "
         "view changed at two or more quiescent points; distinct by hash of the session")
     res.coverage["trusted_base"] = TRUSTED_BASE_COMMON + [
         "python LSP client vlib/lsp.py; `sync` barrier relies on the server handling messages in order",
